@@ -59,13 +59,14 @@ def evenPairs : Bytes → Option (List Bytes)
   | [_] => none
   | a :: b :: t => (evenPairs t).map (fun r => [a, b] :: r)
 
-/-- the objects of one data line: object `i` of `n` sits at beat `4·i/n` of its measure -/
+/-- the objects of one data line: object `i` of `n` sits at beat `4·i/n` of its measure (a bare position: no
+metronome attached; tempo objects get the 4/4 metronome in `tempoOfObj`) -/
 def lineObjs (m : Nat) (seq : Bytes) : Option (List Obj) :=
   (evenPairs seq).map fun ps =>
     let n := ps.length
     (zipIdxFrom 0 ps).filterMap fun p =>
       if p.2 = ['0', '0'] then none
-      else some ⟨⟨(m : Int), 4 * ((p.1 : Nat) : Rat) / ((n : Nat) : Rat), some 4⟩, p.2⟩
+      else some ⟨⟨(m : Int), 4 * ((p.1 : Nat) : Rat) / ((n : Nat) : Rat), none⟩, p.2⟩
 
 def allSome {α} : List (Option α) → Option (List α)
   | [] => some []
@@ -136,7 +137,7 @@ deriving Repr
 
 def tempoOfObj (exbpms : Dict Rat) (ex : Bool) (o : Obj) : Option BcSnap :=
   let bpm? : Option Rat := if ex then dictGet? exbpms o.id else (parseHex2 o.id).map (fun v => ((v : Nat) : Rat))
-  bpm?.bind fun bpm => if bpm ≤ 0 then none else some ⟨bpm, 4, o.snap⟩
+  bpm?.bind fun bpm => if bpm ≤ 0 then none else some ⟨bpm, 4, { o.snap with met := some 4 }⟩
 
 def strictAscBc : List BcSnap → Bool
   | [] => true
